@@ -66,7 +66,7 @@ var errnoSets = map[string][]string{
 func pathRole(v Val) string {
 	k := keyOf(v)
 	switch {
-	case strings.Contains(k, "member("):
+	case strings.Contains(k, "member(") || strings.Contains(k, "member2("):
 		return "member"
 	case strings.Contains(k, "url(header:\"Destination\")") || strings.Contains(k, "destpath"):
 		return "destination"
@@ -367,6 +367,29 @@ func (fx *fsExplorer) walk(in *Interp, site ssa.CallInstruction, args []Val) Val
 		r2 := call(member, Iface{Dyn: types.Typ[types.Invalid], V: Opaque{"fi(" + member.Key + "):" + mk, fiT}}, kNil)
 		if !isNilVal(r2) && !isSkipDir(r2) {
 			return r2
+		}
+		// thorough tier: one level deeper (a member of the member directory)
+		// and a second member of the root, with filepath.Walk's SkipDir
+		// semantics (on a directory: skip its children; on a file: skip the
+		// remaining members of its parent)
+		if fx.c.Thorough() {
+			if mk == "dir" && isNilVal(r2) && in.truth(LazyBool{"dir-has-member(" + member.Key + ")"}) {
+				g := SymStr{Key: "member(" + member.Key + ")", HostPath: hp}
+				r3 := call(g, Iface{Dyn: types.Typ[types.Invalid], V: Opaque{"fi(" + g.Key + "):file", fiT}}, kNil)
+				if !isNilVal(r3) && !isSkipDir(r3) {
+					return r3
+				}
+			}
+			if mk == "file" && isSkipDir(r2) {
+				return kNil
+			}
+			if in.truth(LazyBool{"dir-has-second-member(" + keyOf(root) + ")"}) {
+				m2 := SymStr{Key: "member2(" + keyOf(root) + ")", HostPath: hp}
+				r4 := call(m2, Iface{Dyn: types.Typ[types.Invalid], V: Opaque{"fi(" + m2.Key + "):file", fiT}}, kNil)
+				if !isNilVal(r4) && !isSkipDir(r4) {
+					return r4
+				}
+			}
 		}
 	}
 	return kNil
@@ -819,7 +842,7 @@ func (run *fsRun) replay() (changes []string, feasible bool, faults int, forced 
 		switch cur {
 		case "file", "new-file", "truncated", "overwritten-in-place":
 			return "file"
-		case "dir", "new-dir":
+		case "dir", "new-dir", "replaced-by-new-dir":
 			return "dir"
 		case "absent", "removed":
 			return "ENOENT"
@@ -891,7 +914,7 @@ func (run *fsRun) replay() (changes []string, feasible bool, faults int, forced 
 			s := get(o.Role)
 			touched[o.Role] = true
 			switch s.cur {
-			case "dir", "new-dir":
+			case "dir", "new-dir", "replaced-by-new-dir":
 				feasible = false // EISDIR
 			case "absent", "new-file", "removed":
 				if s.cur == "removed" {
